@@ -108,3 +108,31 @@ claim("C04",
       "link kind present in a concrete file is reachable by the HDF5 walk.",
       "must-end-in / event-absence / argument-value checks on all abstract paths; guard dependency of the unlink",
       "DESIGN.md#c04")
+
+claim("C05",
+      "Static decision on every abstract path: each link creation of the three link creators (LinkContainer.append, "
+      "SourceLinkContainer.append, Feature.data setter) follows a positive membership decision about the very object "
+      "linked, taken in the owning block's container (sources: id search over the block's source tree), the negative "
+      "decision ends in a refusal without a link, and every link list an entity hands out is built on the owning "
+      "block's container of the same item class; membership of an entity in a container depends on its id; "
+      "H5Group.create_link stores the target's own HDF5 group (hard link), HDF5 object copy occurs only in "
+      "H5Group.copy, no soft/external links; ticks/link typestate of range dimensions (after the ticks setter no "
+      "link, after link_* no explicit ticks, old link removed first); linked range/set dimensions read ticks/unit/"
+      "label/labels through the link under the keys the linked object's own accessors use, write unit/label through "
+      "it, and refuse label writes. NOT decided: that a change made through one path is visible through all others "
+      "(HDF5 hard-link semantics), DimensionLink.values indexing.",
+      "must-precede / guard-to-returned-term correspondence on all abstract paths (path-sensitive abstract "
+      "interpretation); abstract storage state at exits; raw h5py event arguments; who-may-call", "DESIGN.md#c05")
+claim("C13",
+      "Static decision: on every abstract path of the two tree finders nodes leave the work queue at its head and "
+      "enter at its tail, the children of a node at level L are enqueued iff L+1 <= limit (root entity level 0, "
+      "children of a file/block level 1), the filter is applied once per dequeued node and the node is returned iff "
+      "it holds; the two finders have identical abstract path sets under sections<->sources; the public find_* "
+      "wrappers pass the given limit unless it is None by identity; Section.parent / Source.parent_source / "
+      "_find_parent_recursive return the candidate whose child container was found to contain the entity itself "
+      "(or its id), by an identity-based membership test; every referring_<kind> iterates the containers of that "
+      "kind and selects by this entity's id / source membership, referring_objects is the union of the family, and "
+      "the family covers every class that can hold the link, over the whole source tree. NOT decided: order and "
+      "multiplicity of results as run-time values on concrete trees.",
+      "event order and guards on all abstract paths (path-sensitive abstract interpretation); clone comparison of "
+      "abstract path sets; structure of comprehension terms; model completeness", "DESIGN.md#c13")
